@@ -1141,6 +1141,27 @@ theorem C03_tag_file_entry (C : Ctx) (q : ApiReq) (content : Str) :
 example : findTaggedFromFile exCtx { name := sP, flavor := sLinux, ignoreVersions := false, preferred := [] }
     ([35, 32, 120, 10] ++ sP ++ [32] ++ v20 ++ [10]) = .ok (some ⟨v20, sLinux, 1⟩) := by decide
 
+/-- **A VRO entry that names a tag file** (`os.path.isfile(vroTag)`; the walk `findF` of `Model/VroApi.lean`): an entry
+that is not a directive (`path`, `keep` below the top level, `commandLine`, a version entry, `warn`) and names an existing
+file answers as the file says — the version it lists for the product, from the first stack declaring it
+(`C03_tag_file_entry`), reason: the entry as written; "not listed" is "continue"; an ill-formed line or a version declared
+nowhere leaves the walk with an error.  With no such files the extended walk is `findProductFromVRO` itself. -/
+theorem C03_tag_file_on_vro (C : Ctx) (files : List (Str × Str)) (q : ApiReq) (r : Req) :
+    (∀ e post content, isDirective r e = false → lookupKey e files = some content →
+      lookupEntryF C files q r e post =
+        match findTaggedFromFile C q content with
+        | .error err => .error err
+        | .ok (some p) => .ok (.hit p e)
+        | .ok none => .ok .skip) ∧
+    (∀ vro, findF C [] q r vro = (match find C r vro with | .error e => .error (.walk e) | .ok o => .ok o)) :=
+  ⟨fun e post content hd hf => lookupEntryF_file C files q r e post content hd hf, fun vro => findF_nil C q r vro⟩
+
+/-- non-vacuity: the VRO `[<file>, current]` with the file listing `p 2.0`: answered by the file (2.0 from stack 1), not by
+`current`; the reason is the file's name -/
+example : findF exCtx [([47, 116], sP ++ [32] ++ v20 ++ [10])]
+    { name := sP, flavor := sLinux, ignoreVersions := false, preferred := [] } (exReq none 0) [[47, 116], sCurrent]
+    = .ok (some ⟨⟨v20, sLinux, 1⟩, [47, 116], [47, 116]⟩) := by decide
+
 /-- The tag-file reader reads back what a writer wrote: a file of plain `product version` lines, `setupRequired(…)`
 lines — with option words in front of the product, with or without a `[relative expression]` behind the version — comment
 lines and blank lines (`Entry`, each with the side conditions `Entry.Ok`: names without blanks that do not start like a
